@@ -136,6 +136,7 @@ pub fn scenario(u: &mut Unstructured, role: Role) -> Scenario {
         pre_existing: role == Role::Receiver && u.ratio(1, 4).unwrap_or(false),
         fsize_limit: None,
         peer_leaves: false,
+        timeout_s: 4,
     }
 }
 
